@@ -38,11 +38,11 @@ import (
 type eng struct{}
 
 func (eng) Name() string                   { return "state" }
-func (eng) CoqRequire(mode string) string  { return "From RV Require Import Model.StateStore Corr.Check_state." }
+func (eng) CoqRequire(mode string) string  { return "From Coq Require Import Uint63.\nFrom RV Require Import Model.StateStore Corr.Check_state." }
 func (eng) CoqCaseType(mode string) string { return "Check_state.case" }
 func (eng) CoqRun(mode string) string      { return "Check_state.run" }
 func (eng) Rule(mode string) string {
-	return "A case is a history of ops (keyed event with the key results the scripted handler returns for it | batch-timer flush | wait for DKV background tasks | checkpoint barrier | redeploy from the latest checkpoint) against one real Operator (key-group count 1/2/7/256/65535, batch size 1..5, DKV memtable 96..2048 bytes, table target 128..4096 bytes, L0 trigger 2, smallest level 256..2048 bytes). Subject keys come from adversarial families (empty, nested prefixes, 0x00 / 0xff runs, keys that contain another key's encoded suffix, long), namespaces include empty / prefixes of each other / length-vs-lexicographic order inversions / 255 bytes, entry keys empty / prefixes, values empty..4KB. Non-trivial: the handler was called at least twice, at least one delete or overwrite of a live entry happened and some later call was handed state for that key; distinct by hash of the case."
+	return "A case is a history of ops (keyed event with the key results the scripted handler returns for it | batch-timer flush | wait for DKV background tasks | checkpoint barrier | redeploy from the latest checkpoint) against one real Operator (key-group count 1/2/7/256/65535, batch size 1..5, DKV memtable 96..2048 bytes, table target 128..4096 bytes, L0 trigger 2, smallest level 256..2048 bytes). Subject keys come from adversarial families (empty, nested prefixes, 0x00 / 0xff runs, keys that contain another key's encoded suffix, long), namespaces include empty / prefixes of each other / length-vs-lexicographic order inversions / 255 bytes, entry keys empty / prefixes, values empty..400 bytes (2.5KB thorough). Non-trivial: the handler was called at least twice, at least one delete or overwrite of a live entry happened and some later call was handed state for that key; distinct by hash of the case."
 }
 
 // ---------- case format ----------
@@ -102,7 +102,7 @@ func keyFamily(r *hx.Rand) [][]byte {
 	case 3: // a key that continues with what would be another key's <ns-len><ns><entry> or <len> bytes
 		return [][]byte{[]byte("k"), append([]byte("k"), 1, 'n', 'e'), append([]byte("k"), 0), append([]byte("k"), 0, 0, 0, 1, 'k'), {0, 0, 0, 1, 'k'}}
 	case 4: // long keys sharing a long prefix
-		base := r.Bytes(r.Range(260, 700))
+		base := r.Bytes(r.Range(257, 300))
 		return [][]byte{base, append(append([]byte{}, base...), 0), base[:len(base)-1], base[:256], []byte("s")}
 	case 5: // random binary
 		n := r.Range(2, 5)
@@ -160,7 +160,7 @@ func genValue(r *hx.Rand, big int) []byte {
 	case 8:
 		return r.Bytes(r.Range(100, 300))
 	default:
-		return r.Bytes(r.Range(200, big))
+		return r.Bytes(r.Range(150, big))
 	}
 }
 
@@ -185,10 +185,10 @@ func genCase(r *hx.Rand, idx int, tier string) *hx.Case {
 	nss := nsFamily(r)
 	ents := entryFamily(r)
 	nOps := r.Range(8, 40)
-	big := 1200
+	big := 400
 	if tier == "thorough" {
 		nOps = r.Range(10, 90)
-		big = 4000
+		big = 2500
 	}
 	restore := r.Chance(1, 3)
 	live := map[liveKey]bool{}
@@ -410,11 +410,32 @@ func toPB(kr kres) *handlerpb.KeyResult {
 }
 
 // Gallina printers
+
+// cb prints a byte string as (B len [w0; w1; ...]%uint63): 7 bytes per word, big-endian (Corr/Check_state.v B).
+func cb(b []byte) string {
+	if len(b) == 0 {
+		return "(B 0 (@nil int))"
+	}
+	var sb strings.Builder
+	fmt.Fprintf(&sb, "(B %d [", len(b))
+	for i := 0; i < len(b); i += 7 {
+		var w uint64
+		for j := i; j < i+7 && j < len(b); j++ {
+			w = w<<8 | uint64(b[j])
+		}
+		if i > 0 {
+			sb.WriteString(";")
+		}
+		fmt.Fprintf(&sb, "%d", w)
+	}
+	sb.WriteString("]%uint63)")
+	return sb.String()
+}
 func coqMut(m mut) string {
 	if m.Put {
-		return "MPut " + hx.CoqBytes(m.E) + " " + hx.CoqBytes(m.V)
+		return "MPut " + cb(m.E) + " " + cb(m.V)
 	}
-	return "MDel " + hx.CoqBytes(m.E)
+	return "MDel " + cb(m.E)
 }
 func coqResp(rs []kres) string {
 	items := make([]string, len(rs))
@@ -429,16 +450,16 @@ func coqResp(rs []kres) string {
 			for k, x := range m.Ms {
 				xs[k] = coqMut(x)
 			}
-			ms[j] = hx.CoqPair(hx.CoqBytes(m.Ns), hx.CoqList(xs, "mutation"))
+			ms[j] = hx.CoqPair(cb(m.Ns), hx.CoqList(xs, "mutation"))
 		}
-		items[i] = fmt.Sprintf("{| kr_key := %s; kr_timers := %s; kr_muts := %s |}", hx.CoqBytes(kr.Key), hx.CoqList(ts, "Z"), hx.CoqList(ms, "nsmuts"))
+		items[i] = fmt.Sprintf("{| kr_key := %s; kr_timers := %s; kr_muts := %s |}", cb(kr.Key), hx.CoqList(ts, "Z"), hx.CoqList(ms, "nsmuts"))
 	}
 	return hx.CoqList(items, "key_result")
 }
 func coqKeys(ks [][]byte) string {
 	items := make([]string, len(ks))
 	for i, k := range ks {
-		items[i] = hx.CoqBytes(k)
+		items[i] = cb(k)
 	}
 	return hx.CoqList(items, "bytes")
 }
@@ -449,11 +470,11 @@ func coqStates(sts []obsKeyState) string {
 		for j, n := range s.Nss {
 			es := make([]string, len(n.Entries))
 			for k, e := range n.Entries {
-				es[k] = hx.CoqPair(hx.CoqBytes(e[0]), hx.CoqBytes(e[1]))
+				es[k] = hx.CoqPair(cb(e[0]), cb(e[1]))
 			}
-			nss[j] = hx.CoqPair(hx.CoqBytes(n.Ns), hx.CoqList(es, "entry"))
+			nss[j] = hx.CoqPair(cb(n.Ns), hx.CoqList(es, "entry"))
 		}
-		items[i] = hx.CoqPair(hx.CoqBytes(s.Key), hx.CoqList(nss, "ns_state"))
+		items[i] = hx.CoqPair(cb(s.Key), hx.CoqList(nss, "ns_state"))
 	}
 	return hx.CoqList(items, "key_state")
 }
@@ -566,6 +587,7 @@ func (eng) Execute(mode string, c *hx.Case) (*hx.Result, error) {
 			}
 		case "ckpt":
 			nCkpt++
+			debugDump(opr.VerifDKV(), "before ckpt (batch may be pending)")
 			id := nextCkpt
 			nextCkpt++
 			before := len(job.ckpts)
@@ -599,6 +621,7 @@ func (eng) Execute(mode string, c *hx.Case) (*hx.Result, error) {
 				return nil, fmt.Errorf("redeploy from checkpoint %d: %w", ck.CheckpointId, err)
 			}
 			steps = append(steps, xstep{kind: "restore", id: ck.CheckpointId})
+			debugDump(opr.VerifDKV(), "after restore")
 		default:
 			return nil, fmt.Errorf("unknown op kind %q", o.K)
 		}
@@ -789,6 +812,23 @@ func bucket(name string, v int) string {
 	}
 }
 
+func debugDump(db *dkv.DB, tag string) {
+	if os.Getenv("C03_DUMP") == "" {
+		return
+	}
+	var err error
+	n := 0
+	for e := range db.ScanPrefix(nil, &err) {
+		k := e.Key()
+		if len(k) > 24 {
+			k = append(append([]byte{}, k[:12]...), k[len(k)-12:]...)
+		}
+		fmt.Fprintf(os.Stderr, "  %s: %x (key %d bytes, value %d)\n", tag, k, len(e.Key()), len(e.Value()))
+		n++
+	}
+	fmt.Fprintln(os.Stderr, tag, "entries", n, err)
+}
+
 var scratchDir string
 
 func scratchRoot() string {
@@ -801,6 +841,8 @@ func scratchRoot() string {
 }
 
 func main() {
-	slog.SetDefault(slog.New(slog.NewTextHandler(io.Discard, nil)))
+	if os.Getenv("C03_LOG") == "" {
+		slog.SetDefault(slog.New(slog.NewTextHandler(io.Discard, nil)))
+	}
 	hx.Main(eng{})
 }
